@@ -63,62 +63,82 @@ Definition split_query (t : str) : query :=
                       end in
   {| q_orig := o; q_repo := repo; q_slot := slot; q_sub := sub; q_body := body |}.
 
-Definition extras_ok (q : query) (p : package) : bool :=
-  match q_repo q with Some r => str_eqb r (p_repo p) | None => true end
-  && field_ok (q_slot q) (p_slot p) && field_ok (q_sub q) (p_subslot p).
+(* the slot / sub-slot / repository fields *)
+Record extras := { e_repo : option str; e_slot : str; e_sub : str }.
+Definition extras_of (q : query) : extras :=
+  {| e_repo := q_repo q; e_slot := q_slot q; e_sub := q_sub q |}.
+
+Definition extras_ok (e : extras) (p : package) : bool :=
+  match e_repo e with Some r => str_eqb r (p_repo p) | None => true end
+  && field_ok (e_slot e) (p_slot p) && field_ok (e_sub e) (p_subslot p).
 
 Definition with_cat (p : package) (c : str) : package :=
   {| p_cat := c; p_pkg := p_pkg p; p_ver := p_ver p; p_rev := p_rev p; p_fullver := p_fullver p;
      p_slot := p_slot p; p_subslot := p_subslot p; p_repo := p_repo p;
      p_use := p_use p; p_iuse := p_iuse p |}.
 
-(* what the atom written as [txt] matches *)
+(* what the atom written as [txt] is *)
 Definition atom_text (txt : str) : option atom :=
   match Model_C03.parse_atom None false txt with
   | Model_C03.Ok a => Some (bridge a)
   | _ => None
   end.
 
-Fixpoint describes_fuel (fuel : nat) (t : str) (p : package) : bool :=
+(* what a text says, as data *)
+Inductive meaning :=
+| MGlob (e : extras) (cat pkg : str)        (* patterns for category and package (empty = any) *)
+| MAtom (a : atom)                          (* a plain atom *)
+| MNoCat (e : extras) (a : atom)            (* atom syntax with the category dropped *)
+| MVer (e : extras) (op : N) (v : str) (m : meaning).   (* operator, globbed target, version *)
+
+Fixpoint means (m : meaning) (p : package) : bool :=
+  match m with
+  | MGlob e c n => extras_ok e p && field_ok c (p_cat p) && field_ok n (p_pkg p)
+  | MAtom a => atom_match ver_cmp a p                 (* what the atom matches *)
+  | MNoCat e a => extras_ok e p && atom_match ver_cmp a (with_cat p (a_cat a))
+                                                      (* ... if the package were in the atom's category *)
+  | MVer e op v m' => extras_ok e p && vmatch ver_cmp op false v None (p_ver p) (p_rev p) && means m' p
+  end.
+
+Fixpoint meaning_fuel (fuel : nat) (t : str) : option meaning :=
   match fuel with
-  | O => false
+  | O => None
   | S f =>
       let q := split_query t in
       let body := q_body q in
       match Model_C03.split_last c_slash body with
       | None =>
           let '(ops, name) := collect_ops body in
-          if is_nil ops && mem c_star name then
-            (* a package-name pattern *)
-            extras_ok q p && field_ok name (p_pkg p)
-          else
-            (* atom syntax with the category dropped *)
-            match atom_text (ops ++ fake_category ++ c_slash :: name) with
-            | Some a => extras_ok q p && atom_match ver_cmp a (with_cat p (a_cat a))
-            | None => false
-            end
+          if is_nil ops && mem c_star name then Some (MGlob (extras_of q) [] name)
+          else match atom_text (ops ++ fake_category ++ c_slash :: name) with
+               | Some a => Some (MNoCat (extras_of q) a)
+               | None => None
+               end
       | Some (c, n) =>
           if starts_op body || negb (mem c_star body) then
             match atom_text (q_orig q) with
-            | Some a => atom_match ver_cmp a p          (* a plain atom: what the atom matches *)
+            | Some a => Some (MAtom a)
             | None =>
-                (* operator, globbed target, version *)
                 match longest_op body with
                 | Some (op, rest) =>
                     match Model_C03.split_last c_dash rest with
                     | Some (target, v) =>
-                        extras_ok q p
-                        && vmatch ver_cmp op false (Model_C03.strip_nl v) None (p_ver p) (p_rev p)
-                        && describes_fuel f target p
-                    | None => false
+                        match meaning_fuel f target with
+                        | Some m => Some (MVer (extras_of q) op (Model_C03.strip_nl v) m)
+                        | None => None
+                        end
+                    | None => None
                     end
-                | None => false
+                | None => None
                 end
             end
-          else extras_ok q p && field_ok c (p_cat p) && field_ok n (p_pkg p)
+          else Some (MGlob (extras_of q) c n)
       end
   end.
-Definition describes (t : str) (p : package) : bool := describes_fuel (S (length t)) t p.
+Definition meaning_of (t : str) : option meaning := meaning_fuel (S (length t)) t.
+
+Definition describes (t : str) (p : package) : bool :=
+  match meaning_of t with Some m => means m p | None => false end.
 
 (* package attributes are newline-free (names, slots) *)
 Definition no_nl (s : str) : bool := negb (mem c_nl s).
@@ -126,6 +146,13 @@ Definition wf_pkg (p : package) : bool :=
   no_nl (p_cat p) && no_nl (p_pkg p) && no_nl (p_slot p) && no_nl (p_subslot p).
 
 (* ------------------------------------------------------------------ (B) inside Coq *)
+(* [map (describes t) pool] as a string of 0/1, the text being read once *)
+Definition describes_bits (t : str) (pool : list package) : str :=
+  match meaning_of t with
+  | Some m => map (fun p => if means m p then 49 else 48) pool
+  | None => map (fun _ => 48) pool
+  end.
+
 (* recorded result of the implementation for one text: VErr kind | VL [structure; VS bits].
    Accept iff: a text with a blocker mark is rejected, and an accepted text selects from the
    pool exactly the packages it describes. *)
@@ -134,7 +161,7 @@ Definition spec_case_ok (pool : list package) (t : str) (r : val) : bool :=
   | VErr _ => true
   | VL [_; VS b] =>
       negb (mem c_bang t)
-      && str_eqb b (map (fun p => if describes t p then 49 else 48) pool)
+      && str_eqb b (describes_bits t pool)
   | _ => false
   end.
 (* the model's own verdict on text acceptance is compared by (A); this is the blocker clause alone *)
